@@ -226,7 +226,30 @@ func (s *kvSubj[K]) ModelApply(op Op) {
 		}
 	case "Clear":
 		s.ents = nil
+	case "Shrink":
+		if len(s.ents) > op.A[0] {
+			s.ents = slices.Clone(s.ents[:op.A[0]])
+		}
 	case "Fill":
+		if !kvIsBidi(s.cfg.Kind) {
+			// linear-time bulk path (the one-by-one model is quadratic): index of classes -> position
+			idx := make(map[string]int, len(s.ents))
+			ents := slices.Clone(s.ents)
+			for i, e := range ents {
+				idx[s.kclass(e.k)] = i
+			}
+			for j, i := range fillIdx(op.A) {
+				k, v := s.d.At(i), "f"+strconv.Itoa(op.ID)+"."+strconv.Itoa(j)
+				if at, ok := idx[s.kclass(k)]; ok {
+					ents[at] = kvEnt[K]{k, v}
+				} else {
+					idx[s.kclass(k)] = len(ents)
+					ents = append(ents, kvEnt[K]{k, v})
+				}
+			}
+			s.ents = ents
+			return
+		}
 		for j, i := range fillIdx(op.A) {
 			s.modelPut(s.d.At(i), "f"+strconv.Itoa(op.ID)+"."+strconv.Itoa(j))
 		}
@@ -388,6 +411,12 @@ func (s *kvSubj[K]) Step(op Op, o *Oracle) {
 		s.counted(o, "Remove", 3, func() { s.m.Remove(k) })
 	case "Clear":
 		s.m.Clear()
+	case "Shrink": // remove all pairs but op.A[0] of them (keys taken from the model: no read of the container)
+		if len(s.ents) > op.A[0] {
+			for _, e := range s.ents[op.A[0]:] {
+				s.m.Remove(e.k)
+			}
+		}
 	case "Fill":
 		for j, i := range fillIdx(op.A) {
 			s.m.Put(s.d.At(i), "f"+strconv.Itoa(op.ID)+"."+strconv.Itoa(j))
@@ -401,6 +430,11 @@ func (s *kvSubj[K]) Step(op Op, o *Oracle) {
 		s.counted(o, "Get", 1, func() { s.m.Get(k) })
 		k2 := s.d.Probes[derive(op.ID, 4, len(s.d.Probes))]
 		s.counted(o, "Get(absent)", 1, func() { s.m.Get(k2) })
+		if bm, ok := s.m.(maps.BidiMap[K, string]); ok {
+			// the value index is a tree over the same n pairs
+			v := s.vd.At(derive(op.ID, 5, len(s.vd.Tab)))
+			s.counted(o, "GetKey", 1, func() { bm.GetKey(v) })
+		}
 	}
 	s.check(o)
 }
@@ -630,6 +664,10 @@ func (s *kvSubj[K]) checkC02(o *Oracle, keys []K, vals []string, ms []kvEnt[K]) 
 		o.Fail("C02", "keys-count", "after %s: %d keys enumerated, %d comparator classes live", o.cur, len(keys), len(ms))
 		return
 	}
+	if len(vals) != len(keys) {
+		o.Fail("C02", "values-count", "after %s: Values() enumerates %d values, Keys() %d keys", o.cur, len(vals), len(keys))
+		return
+	}
 	for i := range keys {
 		if s.kclass(keys[i]) != s.kclass(ms[i].k) {
 			o.Fail("C02", "keys-sorted-content", "after %s: Keys()=%s, want classes of %s", o.cur, joinS(keys, s.d.Str), joinS(ms, func(e kvEnt[K]) string { return s.d.Str(e.k) }))
@@ -735,7 +773,7 @@ func (s *kvSubj[K]) checkC09(o *Oracle, keys []K, vals []string) {
 	for it := lm.Iterator(); it.Next(); {
 		itGot = append(itGot, s.pairStr(it.Key(), it.Value()))
 	}
-	reenter := o.cur.ID%3 == 0 // one check in three: the callback reads the map it is enumerating
+	reenter := o.cur.ID%3 == 0 && len(keys) <= 512 // one check in three: the callback reads the map it is enumerating (quadratic: small maps only)
 	lm.Each(func(k K, v string) {
 		if reenter {
 			// (Find first: a nested call that ends exactly on the current element could put a shared
